@@ -5,7 +5,7 @@ import sys
 import time
 
 ROOT = os.path.dirname(os.path.dirname(os.path.abspath(__file__)))
-EVIDENCE_DIR = os.path.join(ROOT, "evidence")
+EVIDENCE_DIR = os.environ.get("VERIF_EVIDENCE", os.path.join(ROOT, "evidence"))
 REPLAY_DIR = os.path.join(EVIDENCE_DIR, "replays")
 KF_PATH = os.path.join(ROOT, "known_findings.json")
 
